@@ -248,6 +248,14 @@ def main():
         viol.append({'key': 'C17:rank-fixup-raises', 'what': f'{type(e).__name__}: {e}',
                      'input': {'shape': shape, 'qdim': qd, 'bits': bits}})
         continue
+      if list(np.shape(q)) != list(shape) or list(np.shape(d)) != list(shape):
+        # quantization is element-wise: the codes have the tensor's shape
+        viol.append({'key': 'C17:result-shape', 'what':
+                     f'uniform_quantize/dequantize of a tensor of shape {shape} (layout {mode}, qdim {qd}) '
+                     f'returns shapes {list(np.shape(q))} / {list(np.shape(d))}',
+                     'input': {'shape': shape, 'qdim': qd, 'bits': bits, 'symmetric': sym,
+                               'scales': [float(x) for x in scs], 'zps': zps}})
+        continue
       # every code survives dequantize -> quantize, whatever the parameter layout
       lo_c = -(2 ** (bits - 1)) + (1 if sym else 0)
       for code in (lo_c, 2 ** (bits - 1) - 1, 0, lo_c + 1):
